@@ -8,11 +8,13 @@
 package proxy
 
 import (
+	"github.com/datastax/cql-proxy/codecs"
 	"github.com/datastax/go-cassandra-native-protocol/message"
 	"github.com/datastax/go-cassandra-native-protocol/primitive"
 )
 
-var _ message.Message // the contracts below name types of package message
+var _ message.Message // the contracts below name types of packages message and codecs
+var _ *codecs.PartialQuery
 
 // ---------------------------------------------------------------------------------------------
 // C05: the documented default retry policy (README / doc comments of RetryPolicy), as a table.
@@ -188,7 +190,7 @@ func verifSpecCL(lowered string) primitive.ConsistencyLevel {
 // ---------------------------------------------------------------------------------------------
 
 //@ type proxy.client
-//@   ghost $sent int, $executed int
+//@   ghost $sent int, $executed int, $registered bool
 //@   immutable: ctx, proxy, conn, preparedSystemQuery
 
 // The configuration is fixed when the proxy is constructed.
@@ -261,3 +263,118 @@ func verifSpecCL(lowered string) primitive.ConsistencyLevel {
 //@   ensures request-identity: $reqStarted == old($reqStarted) + 1 ==> fresh($lastReq) && $lastReq.client == c && $lastReq.stream == old(raw.Header.StreamId) && $lastReq.version == old(raw.Header.Version) && !$lastReq.done
 //@   ensures error-identity: c.$sent == old(c.$sent) + 1 ==> $lastClient == c && $lastStream == old(raw.Header.StreamId) && $lastVersion == old(raw.Header.Version) && typeis($lastMsg, *message.ServerError)
 //@   modifies *, c.$sent, $reqStarted, $lastReq, $lastMsg, $lastStream, $lastVersion, $lastClient
+
+// ---------------------------------------------------------------------------------------------
+// C09 (routing), C13 (handshake), C01 (one answer per decoded frame): the client reader
+// ---------------------------------------------------------------------------------------------
+
+//@ func proxy.client.filterSystemLocalValues [C10]
+//@   requires c != nil && stmt != nil
+//@   modifies nothing
+
+//@ func proxy.client.filterSystemPeerValues [C10]
+//@   requires c != nil && stmt != nil
+//@   modifies nothing
+
+// interceptSystemQuery: every branch answers with exactly one frame on the request's stream and
+// forwards nothing.
+//@ func proxy.client.interceptSystemQuery [C01, C09, C10]
+//@   requires c != nil && hdr != nil && c.proxy != nil && c.conn != nil && inv(c.proxy) && c.proxy.cluster != nil
+//@   ensures one-frame: c.$sent == old(c.$sent) + 1 && c.$executed == old(c.$executed) && $reqStarted == old($reqStarted)
+//@   ensures on-stream: $lastClient == c && $lastStream == old(hdr.StreamId) && $lastVersion == old(hdr.Version)
+//@   ensures inv(c.proxy)
+//@   modifies *, c.$sent, $lastMsg, $lastStream, $lastVersion, $lastClient
+
+//@ ghostvar $qhHandled bool
+
+// handleQuery: a QUERY is answered locally iff the parser says it is handled (USE / system SELECT,
+// see parser.IsQueryHandled); otherwise it is forwarded, exactly once.
+//@ func proxy.client.handleQuery [C01, C09]
+//@   requires c != nil && raw != nil && raw.Header != nil && body != nil && c.proxy != nil && c.conn != nil && inv(c.proxy) && c.proxy.cluster != nil && !$selReached
+//@   after parser.IsQueryHandled#1 set $qhHandled = result0
+//@   ensures local: $qhHandled ==> c.$executed == old(c.$executed) && c.$sent == old(c.$sent) + 1 && $reqStarted == old($reqStarted)
+//@   ensures forwarded: !$qhHandled ==> c.$executed == old(c.$executed) + 1
+//@   ensures one-answer: (c.$sent - old(c.$sent)) + ($reqStarted - old($reqStarted)) == 1 && c.$sent >= old(c.$sent) && $reqStarted >= old($reqStarted)
+//@   ensures on-stream: c.$sent == old(c.$sent) + 1 ==> $lastClient == c && $lastStream == old(raw.Header.StreamId)
+//@   modifies *, c.$sent, c.$executed, $reqStarted, $lastReq, $lastMsg, $lastStream, $lastVersion, $lastClient, $qhHandled, $selReached, $selDot, $selErr, $selQual, $selTable
+
+//@ func proxy.client.handlePrepare [C01, C09]
+//@   requires c != nil && raw != nil && raw.Header != nil && body != nil && c.proxy != nil && c.conn != nil && inv(c.proxy) && c.preparedSystemQuery != nil && !$selReached
+//@   after parser.IsQueryHandled#1 set $qhHandled = result0
+//@   ensures local: $qhHandled ==> c.$executed == old(c.$executed) && c.$sent == old(c.$sent) + 1 && $reqStarted == old($reqStarted)
+//@   ensures forwarded: !$qhHandled ==> c.$executed == old(c.$executed) + 1
+//@   ensures one-answer: (c.$sent - old(c.$sent)) + ($reqStarted - old($reqStarted)) == 1 && c.$sent >= old(c.$sent) && $reqStarted >= old($reqStarted)
+//@   ensures on-stream: c.$sent == old(c.$sent) + 1 ==> $lastClient == c && $lastStream == old(raw.Header.StreamId)
+//@   modifies *, c.$sent, c.$executed, $reqStarted, $lastReq, $lastMsg, $lastStream, $lastVersion, $lastClient, $qhHandled, $selReached, $selDot, $selErr, $selQual, $selTable
+
+//@ ghostvar $exId [16]byte
+//@ ghostvar $exLocal bool
+
+// handleExecute: an EXECUTE of an id that this client prepared as a handled statement is answered
+// locally; any other id is forwarded.
+//@ func proxy.client.handleExecute [C01, C09]
+//@   requires c != nil && raw != nil && raw.Header != nil && body != nil && c.proxy != nil && c.conn != nil && inv(c.proxy) && c.proxy.cluster != nil
+//@   after proxy.preparedIdKey#1 set $exId = result; $exLocal = mapHas(c.preparedSystemQuery, result)
+//@   ensures local: $exLocal ==> c.$executed == old(c.$executed) && c.$sent == old(c.$sent) + 1 && $reqStarted == old($reqStarted)
+//@   ensures forwarded: !$exLocal ==> c.$executed == old(c.$executed) + 1
+//@   ensures one-answer: (c.$sent - old(c.$sent)) + ($reqStarted - old($reqStarted)) == 1 && c.$sent >= old(c.$sent) && $reqStarted >= old($reqStarted)
+//@   modifies *, c.$sent, c.$executed, $reqStarted, $lastReq, $lastMsg, $lastStream, $lastVersion, $lastClient, $exId, $exLocal
+
+//@ func proxy.preparedIdKey
+//@   trusted
+//@   modifies nothing
+
+//@ func proxy.Proxy.isSelect
+//@   requires p != nil
+//@   modifies nothing
+
+// maybeLogUsingGraph logs a warning once.
+//@ func proxy.Proxy.maybeLogUsingGraph
+//@   trusted
+//@   modifies nothing
+
+//@ func proxy.client.getDefaultIdempotency [C04]
+//@   requires c != nil && c.proxy != nil
+//@   ensures !old(mapHas(customPayload, "graph-source")) ==> result == notDetermined
+//@   ensures old(mapHas(customPayload, "graph-source")) && c.proxy.config.IdempotentGraph ==> result == isIdempotent
+//@   ensures old(mapHas(customPayload, "graph-source")) && !c.proxy.config.IdempotentGraph ==> result == notIdempotent
+//@   modifies nothing
+
+// Receive: what happened to the frame just read from the client. $rx* record the decoded frame.
+//@ ghostvar $rxDecoded bool
+//@ ghostvar $rxVersion primitive.ProtocolVersion
+//@ ghostvar $rxStream int16
+//@ ghostvar $rxBodyTried bool
+//@ ghostvar $rxBodyOK bool
+//@ ghostvar $rxMsg message.Message
+
+// registerForEvents: the client becomes a delivery target of schema events ($registered is the
+// abstract view of membership in Proxy.eventClients).
+//@ func proxy.Proxy.registerForEvents [C14]
+//@   trusted
+//@   requires p != nil && cl != nil
+//@   ensures cl.$registered
+//@   modifies p.eventClients, cl.$registered
+
+//@ loop proxy.client.Receive #1
+//@   invariant c.$sent == old(c.$sent) && c.$executed == old(c.$executed) && $reqStarted == old($reqStarted)
+
+// C13: OPTIONS, STARTUP, REGISTER and unknown opcodes are answered locally with exactly one frame and
+// never forwarded; a version above the configured maximum or below v3 gets exactly one protocol
+// error, is not decoded further, not forwarded, and the connection stays usable (nil error).
+// C01: every successfully decoded frame of an accepted version gets exactly one answer initiated:
+// one local frame or one backend request. A frame that cannot be decoded closes the connection
+// (error return) without any answer.
+//@ func proxy.client.Receive [C01, C13]
+//@   requires c != nil && c.proxy != nil && c.conn != nil && c.codec != nil && inv(c.proxy) && c.proxy.cluster != nil && c.preparedSystemQuery != nil
+//@   requires !$rxDecoded && !$rxBodyTried && !$selReached
+//@   after frame.RawCodec.DecodeRawFrame#1 set $rxDecoded = (result1 == nil); $rxVersion = result0.Header.Version; $rxStream = result0.Header.StreamId
+//@   after frame.RawCodec.DecodeBody#1 set $rxBodyTried = true; $rxBodyOK = (result1 == nil); $rxMsg = result0.Message
+//@   ensures undecodable: !$rxDecoded ==> result != nil && c.$sent == old(c.$sent) && c.$executed == old(c.$executed) && $reqStarted == old($reqStarted)
+//@   ensures version-gate: $rxDecoded && ($rxVersion > c.proxy.config.MaxVersion || $rxVersion < primitive.ProtocolVersion3) ==> result == nil && !$rxBodyTried && c.$sent == old(c.$sent) + 1 && c.$executed == old(c.$executed) && $reqStarted == old($reqStarted) && typeis($lastMsg, *message.ProtocolError) && $lastStream == $rxStream && $lastVersion == $rxVersion && $lastClient == c
+//@   ensures bad-body: $rxBodyTried && !$rxBodyOK ==> result != nil && c.$sent == old(c.$sent) && c.$executed == old(c.$executed) && $reqStarted == old($reqStarted)
+//@   ensures one-answer: $rxBodyTried && $rxBodyOK ==> result == nil && (c.$sent - old(c.$sent)) + ($reqStarted - old($reqStarted)) == 1 && c.$sent >= old(c.$sent) && $reqStarted >= old($reqStarted)
+//@   ensures local-opcodes: $rxBodyTried && $rxBodyOK && !typeis($rxMsg, *message.Prepare) && !typeis($rxMsg, *codecs.PartialExecute) && !typeis($rxMsg, *codecs.PartialQuery) && !typeis($rxMsg, *codecs.PartialBatch) ==> c.$sent == old(c.$sent) + 1 && c.$executed == old(c.$executed) && $reqStarted == old($reqStarted) && $lastStream == $rxStream && $lastClient == c
+//@   ensures handshake-replies: $rxBodyTried && $rxBodyOK && typeis($rxMsg, *message.Options) ==> typeis($lastMsg, *message.Supported)
+//@   ensures register-reply: $rxBodyTried && $rxBodyOK && typeis($rxMsg, *message.Register) ==> typeis($lastMsg, *message.Ready)
+//@   modifies *, c.$registered, c.$sent, c.$executed, $reqStarted, $lastReq, $lastMsg, $lastStream, $lastVersion, $lastClient, $qhHandled, $selReached, $selDot, $selErr, $selQual, $selTable, $exId, $exLocal, $rxDecoded, $rxVersion, $rxStream, $rxBodyTried, $rxBodyOK, $rxMsg
